@@ -20,9 +20,15 @@ package server
 //@ func (st *SocketServer) acceptConnection
 //@   property C15
 //@   loop 1 holds accept_loop
+//@ go func isServerConfig(c cert.TlsConfig, sc *cert.ServerConfig) bool { p, ok := c.(*cert.ServerConfig); return ok && p == sc }
 //@ func (st *SocketServer) acceptConnection$1
 //@   property C15
 //@   requires !G_holds_accept_loop()
+// C05 / C04 / C03: the session handshake gets the endpoint's own ServerConfig (the one that applies the
+// client-certificate requirement), the endpoint's secure flag and the endpoint's filtered channel list
+//@   property C05, C04, C03
+//@   freevars st *SocketServer
+//@   callsite AcceptConnection#1 (arg1 cert.TlsConfig, arg2 bool, arg3 Channels) require isServerConfig(arg1, &st.ServerConfig) && arg2 == st.secure && spec_sameslice(arg3, st.upstreams)     :handshake_gets_the_endpoints_own_settings
 
 //@ func (st *PacketServer) acceptConnection
 //@   property C15
@@ -30,6 +36,9 @@ package server
 //@ func (st *PacketServer) acceptConnection$1
 //@   property C15
 //@   requires !G_holds_accept_loop()
+//@   property C05, C04, C03
+//@   freevars st *PacketServer
+//@   callsite AcceptConnection#1 (arg1 cert.TlsConfig, arg2 bool, arg3 Channels) require isServerConfig(arg1, &st.ServerConfig) && !arg2 && spec_sameslice(arg3, st.upstreams)     :handshake_gets_the_endpoints_own_settings
 
 // ---- C02 / C14: the per-session stream accept loop
 //@ func (ch *ConnectionHandler) acceptStream
@@ -212,6 +221,8 @@ package server
 //@   callsite Filter#1 (ups Channels, e error) assume G_snap_filterfailed() == (e != nil) "ghost snapshot: the allow-list filter reported an error"
 //@   ensures G_snap_filterfailed() ==> err != nil                                                                                   :allow_list_error_is_reported
 //@   callsite NewNetConnectionServerCommunicator#1 (server *dns2.Server) require (server.TLSConfig != nil) == strings.HasSuffix(old(st.Address.Scheme), "+tls")   :tls_listener_exactly_for_tls_schemes
+//@   callsite NewNetConnectionServerCommunicator#1 (server *dns2.Server, a addr.ProtoAddress) require (st.secure && server.Net == a.Scheme + "-tls") || (!st.secure && server.Net == a.Scheme)    :dns_library_network_carries_the_tls_suffix_exactly_when_secure
+//@   callsite NewNetConnectionServerCommunicator#1 (a addr.ProtoAddress) require a.Scheme == "udp" || a.Scheme == "tcp"    :dns_scheme_maps_to_udp_or_tcp
 
 //@ func (ws *HttpServer) Startup
 //@   property C18, C04
@@ -244,3 +255,14 @@ package server
 //@   modifies G_closes(multiplexChannel), G_isclosed(multiplexChannel)
 //@   ensures multiplexChannel != nil && !old(reportsClosedS(multiplexChannel)) ==> G_closes(multiplexChannel) == old(G_closes(multiplexChannel)) + 1    :deferred_close_closes_an_open_stream
 //@   ensures G_closes(multiplexChannel) >= old(G_closes(multiplexChannel))
+
+//@ func (ws *HttpServer) EndpointHandler$1
+//@   property C05, C04, C03
+//@   freevars ws *HttpServer, upstreams Channels
+//@   callsite AcceptConnection#1 (arg1 cert.TlsConfig) require isServerConfig(arg1, &ws.ServerConfig)     :handshake_gets_the_endpoints_own_configuration
+//@   callsite AcceptConnection#1 (arg2 bool) require arg2 == ws.secure     :handshake_gets_the_endpoints_secure_flag
+//@   callsite AcceptConnection#1 (arg3 Channels) require spec_sameslice(arg3, upstreams)     :handshake_gets_the_filtered_channels
+//@ func (st *IoServer) Startup$1
+//@   property C05, C04, C03
+//@   freevars st *IoServer, secure bool
+//@   callsite AcceptConnection#1 (arg1 cert.TlsConfig, arg2 bool, arg3 Channels) require isServerConfig(arg1, &st.ServerConfig) && arg2 == secure && spec_sameslice(arg3, st.upstreams)     :handshake_gets_the_endpoints_own_settings
